@@ -1424,5 +1424,5 @@ def units(tier):
         other.append(('%s-group' % syntax, lambda ctx, s=syntax, v=version: h_selector_group(ctx, s, 'announce', v)))
     other.append(('v6-in-v4-announce', lambda ctx: h_selector(ctx, 'v6', 'announce', 4, keys=('peer-as', 'local-as'))))
     us.append(merged('selector/other', other, must_cover=sel_cov + ('selector-group',), weight=2000, reset=reset_world, max_seconds=1500))
-    assert len(us) <= 22, len(us)
+    assert len(us) <= 24, len(us)
     return us
